@@ -25,6 +25,13 @@ def pmap(fn, cases, jobs=0, chunksize=None):
     global _FN
     _FN = fn
     cases = list(cases)
+    # cases that must not run inside a (daemonic) pool worker, e.g. because they start process pools themselves
+    inline = [c for c in cases if isinstance(c, dict) and c.get("_inline")]
+    cases = [c for c in cases if not (isinstance(c, dict) and c.get("_inline"))]
+    for c in inline:
+        yield _call(c)
+    if not cases:
+        return
     if jobs <= 0:
         jobs = min(os.cpu_count() or 1, 16)
     jobs = max(1, min(jobs, len(cases)))
